@@ -3,7 +3,7 @@ CONSTANTS
   MaxBlocks = 1
   EqD <- L_D3
   EqJ <- L_EqJ
-  FrT <- S_FrT
+  FrT <- L_FrT
   FrD <- L_D3
   FrL <- L_FrL
   FrJ <- L_FrJ
@@ -12,13 +12,13 @@ CONSTANTS
   UnJ <- L_UnJ
   ElDim <- L_Dims
   ElMu <- L_Mu
-  ElK <- L_K1
-  ElD <- L_D1
-  ElDir <- L_Dir1
-  ElA <- Q_ElA
-  ElT <- Q_ElT
-  CvA <- Q_CvA
-  CvT <- Q_CvT
+  ElK <- L_K2
+  ElD <- L_D2
+  ElDir <- L_Dir3
+  ElA <- L_ElA
+  ElT <- L_ElT
+  CvA <- L_CvA
+  CvT <- L_CvT
   Hs <- L_Hs
   Deep = TRUE
   Variant = "doc"
